@@ -32,7 +32,7 @@ TInit == Init /\ l = 1
 
 Reset == /\ Ev("Reset") /\ Logged
          /\ maxNum' = Trace[l].mn
-         /\ owner' = [s \in Win |-> NoOwner] /\ legal' = TRUE /\ docArr' = {} /\ superseded' = {} /\ cnt' = [s \in Win |-> 0] /\ rcnt' = 0
+         /\ owner' = [s \in Win |-> NoOwner] /\ legal' = TRUE /\ docArr' = {} /\ docLive' = {} /\ cnt' = [s \in Win |-> 0] /\ rcnt' = 0
          /\ delivered' = [s \in Win |-> 0] /\ hiNL' = 0 /\ ordOK' = TRUE /\ phantom' = FALSE /\ abandoned' = {}
          /\ lateSet' = {} /\ lateDoc' = {} /\ lastKind' = "init" /\ hist' = <<>>
 
@@ -44,7 +44,8 @@ GhostConc(evs) ==
   /\ legal' = g.legal /\ owner' = g.owner /\ docArr' = g.docArr
   /\ lateSet' = {} /\ lateDoc' = {} /\ lastKind' = "conc"
   /\ GhostOut(g.docArr)
-  /\ UNCHANGED <<maxNum, abandoned, superseded, cnt, rcnt>>
+  /\ docLive' = (IF g.legal THEN docLive \cup g.docArr ELSE docLive)
+  /\ UNCHANGED <<maxNum, abandoned, cnt, rcnt>>
 
 (* pass P: implementation variables := logged real state; ghosts advance from the logged inputs *)
 PArrive  == Ev("Arrive")  /\ Logged /\ GhostArrive(E(Trace[l]))      /\ UNCHANGED hist
